@@ -33,6 +33,7 @@ def run(ctx):
     ctx.rule("R5", "the edit description given by the caller reaches do_edit unmodified (no field of an Edit is rewritten on the way)")
     ctx.rule("R6", "an edit leaves nothing behind that describes the old tree: every field of Root is rewritten by do_edit")
     r6(ctx)
+    r4b(ctx)
     ctx.rule("R7", "a document built from a text holds exactly that text (the 'fresh parse' side of the comparison)")
     r7(ctx)
     ctx.rule("R4", "re-parse receives Some(&self.inner) (the edited tree) and its result is stored back into self.inner")
@@ -404,6 +405,46 @@ def r5(ctx):
                "no field of an Edit is assigned here" if not stores else
                "fields of the Edit are rewritten before it reaches do_edit (%s): the change applied to the text is not the one the caller described — "
                "the document no longer equals the caller's splice" % stores, where=f.loc())
+
+
+def r4b(ctx):
+    """The re-parse runs with a parser made for THIS document's language: wherever the core crate hands a `&mut Parser` to the parsing
+    closure / parse_tree_sitter, that parser is not taken out of a cache (map lookup, RefCell/Mutex/thread-local/static).
+    A parser taken from a cache (per thread, per Rust type) keeps the grammar of whichever document configured it first — SupportLang,
+    SgLang and DynamicLang are ONE type for many grammars."""
+    prog = ctx.prog
+    n = 0
+    for f in sorted(prog.fns.values(), key=lambda f: f.id):
+        if f.crate != "ast_grep_core" or not f.file.endswith("core/src/source.rs") or f.is_closure:
+            continue
+        for fi in prog.family(prog.inlined(f)):
+          for c in fi.calls:
+              if c.bb not in fi.live_blocks or c.name in ("set_language", "new", "branch", "from_residual", "set_included_ranges"):
+                  continue
+              pargs = [a for a in c.args if a[0] != "k" and ("&mut tree_sitter_facade_sg::parser::native::Parser" in fi.locals[a[1][0]])]
+              if not pargs or "Parser::parse" in c.best:
+                  continue
+              if fi.is_closure and all(o.kind == "param" and all(p_ in ("*", "&") for p_ in o.proj) for a in pargs for o in fi.trace_operand(a)):
+                  continue       # a parsing closure using the parser it is handed: whoever calls the closure is the site that counts
+              n += 1
+              roots = []
+              for a in pargs:
+                  for o in fi.trace_operand(a):
+                      if o.kind == "agg":
+                          for sub in o.ref[2][2]:
+                              roots += deep_roots(prog, fi, sub, TRANSPARENT)
+                      else:
+                          roots += deep_roots(prog, fi, a, TRANSPARENT)
+              CACHEY = {"get", "get_mut", "entry", "or_insert_with", "or_insert", "get_or_insert_with", "borrow_mut", "borrow", "lock", "with", "try_with", "get_or_init", "deref_mut"}
+              cached = sorted({o.ref.name for o in roots if o.kind == "call" and o.ref.name in CACHEY} | {"static" for o in roots if o.kind == "static"} |
+                              {p_[2:] for o in roots for p_ in o.proj if isinstance(p_, str) and p_.startswith("()") and p_[2:] in CACHEY})
+              fresh = bool(roots) and not cached
+              sl = [True]
+              ctx.ob("R4", "%s hands over a fresh parser configured for the language" % f.id, fresh and bool(sl),
+                     "the parser does not come out of a cache / shared cell / static (origins traced through the function and its spliced helpers)" if fresh and sl else
+                     "the parser handed to the parse comes out of %s (%s): a cached parser keeps the grammar it was first configured with, so a document of another "
+                     "language (same Rust type, e.g. SupportLang) is re-parsed with the wrong grammar" % (cached, sorted({describe_origin(fi, o) for o in roots})[:3]), where=f.loc(c.line))
+    ctx.floor("R4", "places handing a parser to the parse in core::source", n, 1)
 
 
 def r7(ctx):
